@@ -529,6 +529,94 @@ def check_big(run, specs):
     return stats
 
 
+# ---------------------------------------------------------------------------
+# the sketch as the pipeline feeds it (core_ranking.compute_cardinalities)
+
+def gen_pipeline(rng):
+    p = rng.choice([3, 4, 4, 5])
+    m = 1 << p
+    W = rng.choice([1, 2, m // 2, m // 2, m // 2 + 1, m])
+    cols = rng.sample(["a", "b", "n", "id"], rng.randint(1, 2))
+    kinds = {c: rng.choice(["s", "s", "i"]) for c in cols}
+    pools = {c: (["v%d" % rng.randint(0, 3 * m) for _ in range(rng.randint(1, 2 * m))] if kinds[c] == "s"
+                 else [rng.randint(1, 3 * m) for _ in range(rng.randint(1, 2 * m))]) for c in cols}
+    batches = []
+    for _ in range(rng.randint(1, 5)):
+        rows = rng.randint(1, 14)
+        batches.append({c: [rng.choice(pools[c]) for _ in range(rows)] for c in cols})
+    return {"pipeline": True, "p": p, "W": W, "batches": batches}
+
+
+def check_pipeline(run, cases):
+    res = vlib.run_impl("impl_c14.py", {"cases": [], "pipeline": cases})["pipeline"]
+    exprs, meta = [], []
+    for c, r in zip(cases, res):
+        if not r["ok"]:
+            continue
+        for col in c["batches"][0]:
+            ids, ops, ends = {}, [], []
+            for b in c["batches"]:
+                for d in sorted({r["digest"][str(v)][0] for v in b[col]}):     # any order: C14_len_set / C14_regs_set
+                    if d not in ids:
+                        ids[d] = len(ids)
+                    ops.append(ids[d])
+                ends.append(len(ops) - 1)
+            hashes = [None] * len(ids)
+            for d, h in r["digest"].values():
+                if d in ids:
+                    hashes[ids[d]] = h
+            small = {"p": c["p"], "W": c["W"], "ops": ops}
+            exprs.append(coq_expr(small, hashes, ends))
+            meta.append((c, r, col, ids, ends))
+    vals = vlib.coq_eval("C14", HEADER, exprs, shard=12) if exprs else []
+    bad = 0
+    crossing = 0
+    for c, r in zip(cases, res):
+        if not r["ok"]:
+            bad += 1
+            run.count_case(c, False)
+            run.violation("counterexample", "C14 pipeline run", case=c, impl=r["error"], clause="compute_cardinalities terminates normally")
+    seen_cases = set()
+    for (c, r, col, ids, ends), v in zip(meta, vals):
+        m = 1 << c["p"]
+        lens = [tuple(x) for x in v[0]]
+        msg = None
+        for b, e in enumerate(ends):
+            ph, x = lens[e]
+            il, fl = r["obs"][b][col]
+            if (ph == 0 and (fl or il != x)) or (ph == 1 and (not fl or il not in lc_accept(m, x))):
+                msg = ("column %r after mini-batch %d: %d distinct cell values so far; model %s, implementation len=%d hll_flag=%s"
+                       % (col, b, len(set(ops_upto(c, r, col, b))), ("warm, len %d" % x) if ph == 0 else ("cold, %d empty registers, len in %s" % (x, sorted(lc_accept(m, x)))), il, fl))
+                break
+        if msg is None:
+            ph, st = v[1][-1][0], list(v[1][-1][1])
+            fin = r["final"].get(col)
+            inv = {i: d for d, i in ids.items()}
+            if fin is None or (ph == 0 and (fin["cold"] or sorted(fin["set"]) != sorted(inv[i] for i in st))) or \
+               (ph == 1 and (not fin["cold"] or fin["regs"] != st)):
+                msg = "column %r: final warm-up set / register array differs from the model on the set of inserted digests" % col
+        key = id(c)
+        if key not in seen_cases:
+            seen_cases.add(key)
+            cr = any(ph == 1 for ph, _ in lens)
+            crossing += cr
+            run.count_case(c, cr)
+        if msg is not None:
+            bad += 1
+            if bad <= 2:
+                run.violation("counterexample", "C14 pipeline correspondence (compute_cardinalities -> HyperLogLogWCache)", case=c,
+                              impl={"obs": r["obs"], "final": r["final"]}, model=repr(lens)[:2000],
+                              clause="len of the column's sketch = model on the set of internal_hash(str(cell)) digests inserted so far "
+                                     "(C14_exact / C14_len_set / C14_estimate): " + msg)
+    run.oblige("correspondence: sketch kept by core_ranking.compute_cardinalities after every mini-batch (%d histories)" % len(cases), bad == 0,
+               "%d columns disagree" % bad)
+    return {"histories": len(cases), "crossing": crossing}
+
+
+def ops_upto(c, r, col, b):
+    return [r["digest"][str(v)][0] for bt in c["batches"][:b + 1] for v in bt[col]]
+
+
 def check(run, replay):
     ok, log = vlib.build(["Sketch/HLL.vo"])
     run.oblige("build:model Sketch/HLL.vo", ok, "" if ok else log[-1500:])
@@ -536,20 +624,26 @@ def check(run, replay):
         raise vlib.Broken("build:Sketch/HLL.vo", log)
     vlib.standard_proof_phase(run, ["Props/C14.vo"], "Outrank.Props.C14", THEOREMS, allowed=vlib.STD_REAL_AXIOMS)
 
-    big = []
+    big, pipe = [], []
     if replay is not None:
         rc = replay["case"]
         if "big" in rc:
             cases, big = [], [rc["big"]]
+        elif rc.get("pipeline"):
+            cases, pipe = [], [rc]
         else:
             cases = [rc]
     else:
-        cases = load_corpus("C14")
+        corpus = load_corpus("C14")
+        cases = [c for c in corpus if "big" not in c and not c.get("pipeline")]
+        big_corpus = [c["big"] for c in corpus if "big" in c]
+        pipe_corpus = [c for c in corpus if c.get("pipeline")]
         n = 300 if run.tier == "quick" else 1500
         for _ in range(n):
             cases.append(gen_small(run.rng))
         if run.tier == "thorough":
             cases.extend(exhaustive_small())
+        pipe = pipe_corpus + [gen_pipeline(run.rng) for _ in range(40 if run.tier == "quick" else 300)]
         s = run.rng.randint(0, 10 ** 6)
         if run.tier == "quick":
             big = [{"family": "hex", "n": W_REAL + 3000, "seed": s, "dups": 0.05}]
@@ -558,6 +652,7 @@ def check(run, replay):
                    {"family": "seq", "n": (1 << 21) + 1000, "seed": s + 1, "dups": 0.02},
                    {"family": "rand", "n": (1 << 20), "seed": s + 2, "dups": 0.05},
                    {"family": "bytes", "n": W_REAL + 5000, "seed": s + 3, "dups": 0.3}]
+        big = big_corpus + big
     hist, defaults = ({}, None)
     if cases:
         hist, defaults = check_small(run, cases)
@@ -569,6 +664,7 @@ def check(run, replay):
         if defaults != {"p": P_REAL, "m": 1 << P_REAL, "warmup_size": W_REAL, "width": 64 - P_REAL}:
             run.notes.append("constants differ from p=19, m=2^19, warmup_size=2^18, width=45: %s" % json.dumps(defaults))
     stats = check_big(run, big) if big else []
+    run.cov["pipeline_histories"] = check_pipeline(run, pipe) if pipe else {}
     run.cov["input_distribution"] = hist
     run.cov["real_size_runs"] = stats
     run.cov["fresh_instance_constants"] = defaults
